@@ -98,11 +98,12 @@ Definition key_eqb (a b : key) : bool :=
   end.
 Lemma key_eqb_spec a b : key_eqb a b = true <-> a = b.
 Proof.
-  destruct a, b; cbn; split; intros H; try discriminate; try (inversion H; subst);
-    try (apply Z.eqb_eq in H; now subst); try apply Z.eqb_refl;
-    try (apply zl_eqb_spec in H; now subst); try (now apply zl_eqb_spec).
-  - apply andb_prop in H as [H1 H2]. apply Z.eqb_eq in H1. apply zl_eqb_spec in H2. now subst.
-  - rewrite Z.eqb_refl. cbn. now apply zl_eqb_spec.
+  split.
+  - destruct a, b; cbn; intros H; try discriminate;
+      try (apply Z.eqb_eq in H; now subst); try (apply zl_eqb_spec in H; now subst).
+    apply andb_prop in H as [Ha Hb]. apply Z.eqb_eq in Ha. apply zl_eqb_spec in Hb. now subst.
+  - intros <-. destruct a; cbn; try apply Z.eqb_refl; try (now apply zl_eqb_spec).
+    rewrite Z.eqb_refl. cbn. now apply zl_eqb_spec.
 Qed.
 
 (* ---------------- proofs ---------------- *)
@@ -114,6 +115,12 @@ Proof. intros Hw. unfold uwrap. apply Z.mod_pos_bound. apply Z.pow_pos_nonneg; l
 
 Lemma uwrap_small w x : 0 <= x < 2 ^ w -> uwrap w x = x.
 Proof. intros H. unfold uwrap. now apply Z.mod_small. Qed.
+
+(* Go's uint64(v) of a negative signed value: two's complement *)
+Lemma uwrap64_neg v : - 2 ^ 63 <= v < 0 -> uwrap 64 v = v + 2 ^ 64.
+Proof. intros H. unfold uwrap. symmetry. apply (Z.mod_unique v (2 ^ 64) (-1)); lia. Qed.
+Lemma uwrap64_nonneg v : 0 <= v < 2 ^ 64 -> uwrap 64 v = v.
+Proof. apply uwrap_small. Qed.
 
 (* the products of NewReMap never wrap: nps is Remap.bound on the index range *)
 Lemma mul_no_wrap n i : 1 <= n -> 0 <= i < n -> 0 <= (MaxU64 / n) * (i + 1) <= MaxU64.
@@ -245,8 +252,12 @@ Qed.
 
 Theorem search_index_c_zero n : 1 <= n < 2 ^ 63 -> search_index_c n 0 = 0.
 Proof.
-  intros Hn. apply search_index_c_unique; try lia; [rewrite MaxU64_val; lia| |intros a Ha; lia].
-  rewrite nps_bound by lia. unfold bound. destruct (0 =? n - 1); [rewrite MaxU64_val; lia|]. apply mul_no_wrap; lia.
+  intros Hn. apply search_index_c_unique.
+  - exact Hn.
+  - rewrite MaxU64_val; lia.
+  - lia.
+  - rewrite nps_bound by lia. unfold bound. destruct (0 =? n - 1); [rewrite MaxU64_val; lia|]. apply mul_no_wrap; lia.
+  - intros a Ha; lia.
 Qed.
 
 Theorem search_index_c_max n : 1 <= n < 2 ^ 63 -> search_index_c n MaxU64 = n - 1.
@@ -290,6 +301,18 @@ Proof.
   rewrite Z.rem_mod_nonneg by lia. reflexivity.
 Qed.
 
+(* signed integer keys of every width: non-negative values route by the value, negative ones by value + 2^64 *)
+Definition signed_val (k : key) : option Z :=
+  match k with KI8 v | KI16 v | KI32 v | KI64 v | KInt v => Some v | _ => None end.
+Theorem simple_index_signed n k v h : 1 <= n -> signed_val k = Some v -> - 2 ^ 63 <= v < 2 ^ 63 ->
+  simple_index n k h = Some ((if v <? 0 then v + 2 ^ 64 else v) mod n).
+Proof.
+  intros Hn Hk Hv.
+  assert (E : simple_u64 k = Some (uwrap 64 v)) by (destruct k; cbn in Hk; inversion Hk; subst; reflexivity).
+  rewrite (simple_index_int n k _ h Hn E). f_equal. f_equal.
+  destruct (v <? 0) eqn:L; [apply Z.ltb_lt in L; apply uwrap64_neg; lia | apply Z.ltb_ge in L; apply uwrap64_nonneg; lia].
+Qed.
+
 (* the hash route depends on the key only through its bytes (stability across key types with equal bytes) *)
 Theorem xhash_index_bytes n k k' h : xhash_supported k = true -> xhash_supported k' = true ->
   xhash_index n k h = xhash_index n k' h.
@@ -302,9 +325,9 @@ Lemma le_bytes_range n : forall w, Forall (fun b => 0 <= b < 256) (le_bytes n w)
 Proof. induction n as [|n IH]; intros w; cbn; constructor; [apply Z.mod_pos_bound; lia|apply IH]. Qed.
 
 (* non-vacuity *)
-Example ex_neg_int8 : simple_index 73 (KI8 (-1)) 0 = Some 16.
+Example ex_neg_int8 : simple_index 73 (KI8 (-1)) 0 = Some 1.
 Proof. vm_compute. reflexivity. Qed.
-Example ex_minint : simple_index 73 (KI64 (- 2 ^ 63)) 0 = Some 9.
+Example ex_minint : simple_index 73 (KI64 (- 2 ^ 63)) 0 = Some 1.
 Proof. vm_compute. reflexivity. Qed.
 Example ex_search_73 : search_index_c 73 (252695124297391118 + 1) = 1 /\ search_index_c 73 252695124297391118 = 0
   /\ search_index_c 73 MaxU64 = 72.
